@@ -119,10 +119,10 @@ def h_reach(x):
 
 def harnesses(tier):
     install()
-    hs = [(Harness(PROP, "merge-pair", h_merge, {}, "heartbeat_merge on two events, all fields symbolic"), 120)]
+    hs = [(Harness(PROP, "merge-pair", h_merge, {}, "heartbeat_merge on two events, all fields symbolic", cross_solver=20), 120)]
     ns = [2, 3] if tier == "quick" else [2, 3, 4, 5]
     for n in ns:
-        hs.append((Harness(PROP, "reduce-n%d" % n, h_reduce, dict(n=n), "heartbeat_reduce on %d events vs left fold of the reference rule" % n, split_depth=8), 900))
+        hs.append((Harness(PROP, "reduce-n%d" % n, h_reduce, dict(n=n), "heartbeat_reduce on %d events vs left fold of the reference rule" % n, split_depth=8, cross_solver=3), 900))
     return hs
 
 
